@@ -329,6 +329,8 @@ pub struct Step<'a> {
     pub verification_enabled: Option<bool>,
     /// Debug renderings ({:?} and {:#?}) of every stored passkey after the step
     pub after_debug: &'a [String],
+    /// what the library's public COSE-to-SubjectPublicKeyInfo helper returns for each stored key
+    pub after_spki: &'a [Vec<u8>],
 }
 
 pub struct World {
@@ -587,6 +589,10 @@ impl World {
         let after = self.rig.store.snapshot();
         let events = self.rig.log.snapshot();
         let after_debug: Vec<String> = self.rig.store.passkeys().iter().flat_map(|p| [format!("{p:?}"), format!("{p:#?}")]).collect();
+        let after_spki: Vec<Vec<u8>> = self.rig.store.passkeys().iter().map(|p| match passkey_authenticator::public_key_der_from_cose_key(&p.key) {
+            Ok(der) => der.to_vec(),
+            Err(e) => format!("{e:?}").into_bytes(),
+        }).collect();
         {
             let st = Step {
                 index,
@@ -604,6 +610,7 @@ impl World {
                 resolved_by_cred_hashed: rbh,
                 verification_enabled: self.verification_enabled,
                 after_debug: &after_debug,
+                after_spki: &after_spki,
             };
             monitor(&st);
         }
